@@ -443,6 +443,14 @@ func (g *Gen) AddRemarks(d, t *GConf) {
 				anchors = append(anchors, ta.Lines[i+1])
 			}
 		}
+		if g.Rng.Intn(3) == 0 {
+			// A heading remark, the same on both sides whatever the
+			// entries are.
+			g.remarkN++
+			rem := fmt.Sprintf("remark r%d heading", g.remarkN)
+			da.Lines = append([]string{rem}, da.Lines...)
+			ta.Lines = append([]string{rem}, ta.Lines...)
+		}
 		for k := 1 + g.Rng.Intn(2); k > 0; k-- {
 			var anchor string
 			if len(anchors) > 0 && g.Rng.Intn(4) != 0 {
